@@ -82,7 +82,10 @@ fn impl_run(cp: &CompiledProgram, word: &[u8], lb: bool, ovr: Option<u8>) -> Res
     catch(|| {
         let mut r = ImplRun { seq: vec![], spelled: vec![], is_lig: vec![], nodes: vec![], kerns_at: vec![] };
         let opts = RunOptions { disable_left_boundary: !lb, right_boundary_override: ovr.map(|c| c as char) };
-        for it in cp.run_with_options(word.iter().map(|c| *c as char), opts).take(10_000) {
+        // the default mode goes through `CompiledProgram::run(&str)`, the others through run_with_options
+        let text: String = word.iter().map(|c| *c as char).collect();
+        let items: Vec<RunItem> = if lb && ovr.is_none() { cp.run(&text).take(10_000).collect() } else { cp.run_with_options(word.iter().map(|c| *c as char), opts).take(10_000).collect() };
+        for it in items {
             match it {
                 RunItem::Char(c) => {
                     r.seq.push(Out::G(c as u8));
@@ -816,6 +819,94 @@ fn main() {
             check_tfm_route(i, &words, &entries, rw, acc, shr);
         });
     }
+    // F2e: the property-list route (pl::File::from_pl_source_code + compile_from_pl_file)
+    {
+        let n = space2.len() * 3 * 3;
+        let lay = [Layout::Consecutive, Layout::FallThrough, Layout::SkipForeign];
+        let (sp, w, shr) = (&space2, &words_upto(3), &sh);
+        ctx.family("pl-route", "every set of <= 2 rules x boundarychar x 3 chain layouts written as a property list (LIGTABLE with LABEL / SKIP / STOP, BOUNDARYCHAR), parsed with pl::File::from_pl_source_code and compiled with compile_from_pl_file; every word of length 1..3 x left boundary on/off", n, |i, acc| {
+            let d = vcore::digits(i, &[sp.len(), 3, 3]);
+            let rules = sp.rules(d[0]);
+            let Some(p) = build(&rules, rbc_of(d[1]), lay[d[2] as usize]) else {
+                acc.skipped += 1;
+                return;
+            };
+            let font = model_font(&p);
+            if !lk::looping_pairs(&font, SIM_BUDGET).is_empty() {
+                acc.skipped += 1; // PLtoTF clears a looping LIGTABLE: the loop verdict is compared in the other families
+                return;
+            }
+            let pl = pl_abc(&pl_ligtable(&p));
+            acc.eval();
+            let compiled = catch(|| {
+                let (f, warnings) = tfm::pl::File::from_pl_source_code(&pl);
+                (CompiledProgram::compile_from_pl_file(&f), warnings.len())
+            });
+            let case = |x: Value| case_json(&rules, p.rbc, lay[d[2] as usize], x);
+            let ((cp, errs), nwarn) = match compiled {
+                Ok(x) => x,
+                Err(pn) => {
+                    acc.fail(i, case(json!({"kind": "pl-route", "pl": pl})), "returns", pn.describe(), "from_pl_source_code / compile_from_pl_file panicked");
+                    return;
+                }
+            };
+            if nwarn > 0 || !errs.is_empty() {
+                acc.fail(i, case(json!({"kind": "pl-route", "pl": pl})), "a loop-free program: no warning, no loop", format!("{nwarn} warning(s), {errs:?}"), "loop verdict differs from direct interpretation (PL route)");
+                return;
+            }
+            acc.count("pl_route_program_compiled");
+            for wd in w.iter() {
+                for lb in [true, false] {
+                    acc.eval();
+                    let Some(m) = lk::run(&font, wd, lb, font.bchar, SIM_BUDGET) else { continue };
+                    if !m.fired.is_empty() {
+                        acc.nontrivial();
+                    }
+                    let want: Vec<Out> = m.nodes.iter().map(|n| match n {
+                        Node::Char(c) | Node::Lig { c, .. } => Out::G(*c),
+                        Node::Kern(k) => Out::K(scaled_kern(*k)),
+                    }).collect();
+                    match impl_run(&cp, wd, lb, None) {
+                        Err(pn) => acc.fail(i, case(json!({"kind": "pl-route", "pl": pl, "word": String::from_utf8_lossy(wd), "lb": lb})), render_nodes(&m.nodes), pn.describe(), "run panicked (PL route)"),
+                        Ok(got) => {
+                            if got.seq != want || got.spelled != *wd {
+                                acc.fail(i, case(json!({"kind": "pl-route", "pl": pl, "word": String::from_utf8_lossy(wd), "lb": lb})), format!("{} = {:?}", render_nodes(&m.nodes), want), format!("{} = {:?}", render_nodes(&got.nodes), got.seq), "characters / ligature glyphs / kerns differ from direct interpretation (PL route)");
+                            } else {
+                                acc.class("agree (PL route)");
+                            }
+                        }
+                    }
+                }
+            }
+        });
+    }
+    // F2f: one byte of one instruction swept over all 256 values (TFM route): every skip byte, next character,
+    //      op byte (nonstandard ligature codes, kern indices with a high byte) and remainder (inserted glyph 0..255)
+    {
+        let bases: [[lk::Word; 2]; 3] = [[[0, b'b', 0, b'c'], [128, b'b', 128, 1]], [[0, b'b', 128, 0], [128, b'a', 3, b'c']], [[1, b'a', 7, b'b'], [128, b'b', 11, b'a']]];
+        let n = (bases.len() * 2 * 4 * 256) as u64;
+        let (bs, shr) = (&bases, &sh);
+        ctx.family("tfm-route-byte-sweep", "3 two-word programs x each of the 8 bytes set to every value 0..255 (skip byte: SKIP n, stop words 129..255; next character 0..255; op byte: all ligature codes incl. nonstandard ones, kern indices 256*(op-128)+rem beyond the table; remainder: every inserted glyph), entry of a at word 0 and of b at word 1, through File::deserialize + compile_from_tfm_file; words a, b, ab, ba, aa, bb, a?, ?a, ab?, where ? is the swept next character / glyph", n, |i, acc| {
+            let d = vcore::digits(i, &[bs.len() as u64, 2, 4, 256]);
+            let mut words: Vec<lk::Word> = bs[d[0] as usize].to_vec();
+            words[d[1] as usize][d[2] as usize] = d[3] as u8;
+            let x = d[3] as u8;
+            let run_words: Vec<Vec<u8>> = vec![vec![b'a'], vec![b'b'], vec![b'a', b'b'], vec![b'b', b'a'], vec![b'a', b'a'], vec![b'b', b'b'], vec![b'a', x], vec![x, b'a'], vec![b'a', b'b', x]];
+            let w = words[d[1] as usize];
+            if w[0] <= 128 && w[2] < 128 && ![0u8, 1, 2, 3, 5, 6, 7, 11].contains(&w[2]) {
+                acc.count("nonstandard_ligature_code");
+            }
+            if w[0] <= 128 && w[2] > 128 {
+                acc.count("kern_index_with_high_byte");
+            }
+            if (129..254).contains(&w[0]) {
+                acc.count("stop_word_with_skip_byte_129_to_253");
+            }
+            // characters c and d exist in the tiny font; an inserted glyph or next character outside a..d is a
+            // character TeX would refuse at load time (§573 check_existence): both sides just use the byte
+            check_tfm_route(i, &words, &[(b'a', 0), (b'b', 1)], &run_words, acc, shr);
+        });
+    }
     // F3: a word with skip byte > 128 inside a chain (TeX §1039 never executes it and stops there;
     //     lang::Operation::EntrypointRedirect documents it as an unconditional stop)
     {
@@ -845,6 +936,10 @@ fn main() {
     ctx.require("ligature_of_a_ligature", "a ligature command fired on a character that was itself inserted by a ligature command");
     ctx.require("left_boundary_rule_fired", "a left boundary rule fired");
     ctx.require("right_boundary_rule_fired", "a rule fired against the right boundary character");
+    ctx.require("pl_route_program_compiled", "programs compiled through the property-list route");
+    ctx.require("nonstandard_ligature_code", "an executed ligature instruction with a nonstandard op code (TeX: treated as =:)");
+    ctx.require("kern_index_with_high_byte", "a kern instruction whose index needs the high byte");
+    ctx.require("stop_word_with_skip_byte_129_to_253", "a word with skip byte in 129..253");
     ctx.require("tfm_route_entry_is_restart_word", "TFM route: a character's entry byte names a restart word");
     ctx.require("tfm_route_restart_target_is_again_a_stop_word", "TFM route: the restart target is itself a word with skip byte > 128 (TeX restarts once: empty program)");
     ctx.require("tfm_route_restart_target_out_of_range", "TFM route: the restart target lies outside the array");
